@@ -371,6 +371,7 @@ struct Stats {
     in_place: u64,
     rejected_decodes: u64,
     wide_roundtrips: u64,
+    kilo_roundtrips: u64,
     checks: u64,
     c05_streams: u64,
     c05_with_repeats: u64,
@@ -785,23 +786,36 @@ fn run_case(case: &Case) -> Out {
         }
         out.st.wide_roundtrips += 1;
     }
+    // ... and one in 1920 containers of more than 1024 entries
+    if case.hash64() % 1920 == 7 && out.viol.is_none() {
+        if let Some(v) = wide_rt::<1500, 1510>(case, 1030, 471) {
+            out.viol = Some(v);
+        }
+        out.st.kilo_roundtrips += 1;
+    }
     out
 }
 
 /// `Map<u16,u32,300>` / `Set<u16,300>` holding 250..300 entries (in an order made by a few
 /// removals and re-insertions), through bincode and the token stream, into 300 and 310 slots.
 fn wide_round_trip(case: &Case) -> Option<String> {
+    wide_rt::<300, 310>(case, 250, 51)
+}
+
+/// The same for `N` slots holding `lo .. lo + span` entries, decoded into `N` and `M` slots
+/// (1500 slots: more than 1024 entries; 66000 slots, thorough tier: more than 65535).
+fn wide_rt<const N: usize, const M: usize>(case: &Case, lo: usize, span: usize) -> Option<String> {
     let seedv: usize = case.ops.iter().fold(case.univ as usize, |a, o| a.wrapping_mul(31).wrapping_add(o[0] as usize + o[1] as usize * 7 + o[2] as usize * 13));
-    let count = 250 + seedv % 51;
-    let mut m: Box<Map<u16, u32, 300>> = Box::new(Map::new());
-    let mut s: Box<Set<u16, 300>> = Box::new(Set::new());
+    let count = lo + seedv % span;
+    let mut m: Box<Map<u32, u32, N>> = Box::new(Map::new());
+    let mut s: Box<Set<u32, N>> = Box::new(Set::new());
     for i in 0..count {
-        let k = (i as u16).wrapping_mul(7).wrapping_add(3);
+        let k = (i as u32).wrapping_mul(7).wrapping_add(3);
         m.insert(k, 0xA000 + i as u32);
         s.insert(k);
     }
     for o in case.ops.iter().take(6) {
-        let k = ((o[1] as usize * count) >> 8) as u16 * 7 + 3;
+        let k = ((o[1] as usize * count) >> 8) as u32 * 7 + 3;
         if let Some(v) = m.remove(&k) {
             m.insert(k, v);
         }
@@ -813,7 +827,7 @@ fn wide_round_trip(case: &Case) -> Option<String> {
         return None;
     }
     let cfg = bincode::config::legacy();
-    let mut buf = vec![0u8; 16 + 300 * 8];
+    let mut buf = vec![0u8; 16 + N * 8];
     macro_rules! bin {
         ($x:expr, $t:ty, $what:expr) => {{
             match silent(|| bincode::serde::encode_into_slice(&*$x, &mut buf, cfg)) {
@@ -829,47 +843,47 @@ fn wide_round_trip(case: &Case) -> Option<String> {
             }
         }};
     }
-    bin!(m, Map<u16, u32, 300>, "Map<u16,u32,300> -> 300 slots");
-    bin!(m, Map<u16, u32, 310>, "Map<u16,u32,300> -> 310 slots");
-    bin!(s, Set<u16, 300>, "Set<u16,300> -> 300 slots");
-    bin!(s, Set<u16, 310>, "Set<u16,300> -> 310 slots");
+    bin!(m, Map<u32, u32, N>, format!("Map<u32,u32,{N}> -> {N} slots"));
+    bin!(m, Map<u32, u32, M>, format!("Map<u32,u32,{N}> -> {M} slots"));
+    bin!(s, Set<u32, N>, format!("Set<u32,{N}> -> {N} slots"));
+    bin!(s, Set<u32, M>, format!("Set<u32,{N}> -> {M} slots"));
     // token stream with and without size hints
     let mut toks: Vec<Tok> = Vec::new();
     match silent(|| m.serialize(Rec(&mut toks))) {
         Ok(Ok(())) => {
             if toks.first() != Some(&Tok::MapStart(Some(count))) || toks.len() != 2 * count + 2 {
-                return Some(format!("Map<u16,u32,300>: serializer announced {:?} and emitted {} tokens for {count} entries", toks.first(), toks.len()));
+                return Some(format!("Map<u32,u32,{N}>: serializer announced {:?} and emitted {} tokens for {count} entries", toks.first(), toks.len()));
             }
             for hint in [true, false] {
                 let mut de = TokDe::new(&toks, hint);
-                match silent(|| Map::<u16, u32, 300>::deserialize(&mut de).map(Box::new)) {
+                match silent(|| Map::<u32, u32, N>::deserialize(&mut de).map(Box::new)) {
                     Ok(Ok(d)) => {
                         if !(*d == *m) || d.len() != count {
-                            return Some(format!("Map<u16,u32,300>: token stream round trip (size hints {hint}) gives {} entries for {count}", d.len()));
+                            return Some(format!("Map<u32,u32,{N}>: token stream round trip (size hints {hint}) gives {} entries for {count}", d.len()));
                         }
                     }
-                    other => return Some(format!("Map<u16,u32,300>: token stream decode of {count} entries (size hints {hint}) failed: {:?}", other.map(|r| r.map(|_| ())))),
+                    other => return Some(format!("Map<u32,u32,{N}>: token stream decode of {count} entries (size hints {hint}) failed: {:?}", other.map(|r| r.map(|_| ())))),
                 }
             }
         }
-        other => return Some(format!("Map<u16,u32,300>: serialize failed: {other:?}")),
+        other => return Some(format!("Map<u32,u32,{N}>: serialize failed: {other:?}")),
     }
     let mut toks: Vec<Tok> = Vec::new();
     match silent(|| s.serialize(Rec(&mut toks))) {
         Ok(Ok(())) => {
             for hint in [true, false] {
                 let mut de = TokDe::new(&toks, hint);
-                match silent(|| Set::<u16, 300>::deserialize(&mut de).map(Box::new)) {
+                match silent(|| Set::<u32, N>::deserialize(&mut de).map(Box::new)) {
                     Ok(Ok(d)) => {
                         if !(*d == *s) || d.len() != count {
-                            return Some(format!("Set<u16,300>: token stream round trip (size hints {hint}) gives {} elements for {count}", d.len()));
+                            return Some(format!("Set<u32,{N}>: token stream round trip (size hints {hint}) gives {} elements for {count}", d.len()));
                         }
                     }
-                    other => return Some(format!("Set<u16,300>: token stream decode of {count} elements (size hints {hint}) failed: {:?}", other.map(|r| r.map(|_| ())))),
+                    other => return Some(format!("Set<u32,{N}>: token stream decode of {count} elements (size hints {hint}) failed: {:?}", other.map(|r| r.map(|_| ())))),
                 }
             }
         }
-        other => return Some(format!("Set<u16,300>: serialize failed: {other:?}")),
+        other => return Some(format!("Set<u32,{N}>: serialize failed: {other:?}")),
     }
     None
 }
@@ -1105,6 +1119,7 @@ fn main() {
                             s.in_place += out.st.in_place;
                             s.rejected_decodes += out.st.rejected_decodes;
                             s.wide_roundtrips += out.st.wide_roundtrips;
+                            s.kilo_roundtrips += out.st.kilo_roundtrips;
                             s.c05_streams += out.st.c05_streams;
                             s.c05_with_repeats += out.st.c05_with_repeats;
                             s.c05_skipped_overflow += out.st.c05_skipped_overflow;
@@ -1152,6 +1167,7 @@ fn main() {
         st.in_place += s.in_place;
         st.rejected_decodes += s.rejected_decodes;
         st.wide_roundtrips += s.wide_roundtrips;
+        st.kilo_roundtrips += s.kilo_roundtrips;
         st.c05_streams += s.c05_streams;
         st.c05_with_repeats += s.c05_with_repeats;
         st.c05_skipped_overflow += s.c05_skipped_overflow;
@@ -1161,6 +1177,19 @@ fn main() {
         }
         if viol.is_none() {
             viol = v;
+        }
+    }
+    // thorough tier, C20 only: one round trip of containers holding more than 65535 entries
+    // (counters and positions that do not fit 16 bits), on a thread with a stack that holds them
+    let mut huge_done = 0u32;
+    if mode == "thorough" && !c05 && !c06 && viol.is_none() {
+        let c0 = Case { is_set: false, cap: 0, dcap: 0, univ: (seed % 200) as u8, ops: vec![[seed as u8, (seed >> 8) as u8, 3]], rejects: 0 };
+        let c1 = c0.clone();
+        let r = std::thread::Builder::new().stack_size(256 << 20).spawn(move || wide_rt::<66000, 66010>(&c1, 65540, 400)).expect("spawn").join();
+        match r {
+            Ok(None) => huge_done = 1,
+            Ok(Some(v)) => viol = Some((c0, format!("(containers of more than 65535 entries; replay covers the smaller sizes only) {v}"))),
+            Err(_) => println!("note: the 66000-slot round trip ended abnormally (not counted)"),
         }
     }
     // corpus replay
@@ -1258,6 +1287,8 @@ fn main() {
                 ("deserialize_in_place_into_nonempty_targets".into(), J::N(st.in_place as f64)),
                 ("failing_decodes_of_truncated_input_before_the_round_trips".into(), J::N(st.rejected_decodes as f64)),
                 ("round_trips_of_containers_with_250_to_300_entries".into(), J::N(st.wide_roundtrips as f64)),
+                ("round_trips_of_containers_with_1030_to_1500_entries".into(), J::N(st.kilo_roundtrips as f64)),
+                ("round_trips_of_containers_with_more_than_65535_entries".into(), J::N(huge_done as f64)),
                 ("profile".into(), J::S(if cfg!(debug_assertions) { "dev (debug assertions on)".into() } else { "release (debug assertions off)".to_string() })),
                 ("cases_with_swap_removal".into(), J::N(st.swap_removals as f64)),
                 ("cases_len_ge2".into(), J::N(st.len_ge2 as f64)),
